@@ -53,14 +53,15 @@ Definition check_corr (k : case) : bool :=
   end.
 
 (* the property on the implementation's observation: the tables played by `expand` give the quantised source
-   program, and everything emitted respects the device limits; rejecting is always allowed *)
+   program, and everything emitted respects the device limits; rejecting is always allowed.
+   `spec_cached` = `spec` (Props.C16_spec_cached_eq), evaluated with one quantisation per waveform of the table *)
 Definition check_spec (k : case) : bool :=
   match k with
   | CProg c tbl prog impl =>
       match impl with
       | None => true
       | Some o' =>
-          match spec c tbl prog, expand o' with
+          match spec_cached c tbl prog, expand o' with
           | Some s, Some s' => streams_eqb s s' && limits_ok c o'
           | _, _ => false
           end
@@ -72,7 +73,7 @@ Definition check_spec (k : case) : bool :=
 Definition check_plays (k : case) : bool :=
   match k with
   | CProg c tbl prog (Some o') =>
-      match spec c tbl prog, expand o' with Some s, Some s' => streams_eqb s s' | _, _ => false end
+      match spec_cached c tbl prog, expand o' with Some s, Some s' => streams_eqb s s' | _, _ => false end
   | CProg _ _ _ None => true
   | CCrash => false
   end.
